@@ -11,10 +11,10 @@ from .runner import Outcome
 NAMES = (("H_tilde", "Ht"), ("U", "U"), ("U_inv", "Ui"))
 
 
-def outputs(problem, out, what):
+def outputs(problem, out, what, ham=None, kwargs=None):
     """All three output series of a problem as dicts order -> full matrix; None on library exception."""
     sub = Outcome()
-    ctx = bd_checks.Ctx(problem, sub)
+    ctx = bd_checks.Ctx(problem, sub, ham, kwargs)
     res = {}
     if ctx.ok:
         for name, key in NAMES:
